@@ -157,4 +157,29 @@ theorem sortRows_spec (cmp : Row → Row → Int) (hc : IsCmp cmp) (rows : List 
   simp only [List.append_nil] at p
   exact p.trans (List.reverse_perm rows)
 
+/-! ### a repeated key adds nothing -/
+
+theorem cmpChain_dedupAux (a b : Row) : ∀ (ks seen : List Key), (∀ s ∈ seen, s.cmp a b = 0) →
+    cmpChain ((dedupAux seen ks).map Key.cmp) a b = cmpChain (ks.map Key.cmp) a b
+  | [], _, _ => rfl
+  | k :: ks, seen, h => by
+    by_cases hk : k ∈ seen
+    · have hz := h k hk
+      simp only [dedupAux, hk, if_true, List.map_cons, cmpChain, hz, ne_eq, not_true_eq_false, if_false]
+      exact cmpChain_dedupAux a b ks seen h
+    · simp only [dedupAux, hk, if_false, List.map_cons, cmpChain]
+      by_cases hz : k.cmp a b = 0
+      · simp only [hz, ne_eq, not_true_eq_false, if_false]
+        exact cmpChain_dedupAux a b ks (k :: seen) (by
+          intro s hs
+          rcases List.mem_cons.mp hs with e | e
+          · subst e; exact hz
+          · exact h s e)
+      · simp only [hz, ne_eq, not_false_eq_true, if_true]
+
+theorem cmpChain_dedup (ks : List Key) :
+    cmpChain ((dedupKeys ks).map Key.cmp) = cmpChain (ks.map Key.cmp) := by
+  funext a b
+  exact cmpChain_dedupAux a b ks [] (by intro s hs; cases hs)
+
 end Uft.Report
